@@ -59,6 +59,8 @@ class Intervals:
 
     # ---- expressions
     def ev(self, n, env):
+        if isinstance(env.get("alias:x"), str):
+            pass
         c = _const(n)
         if c is not None:
             return (c, c)
@@ -117,6 +119,9 @@ class Intervals:
         if isinstance(n, ast.IfExp):
             return _join(self.ev(n.body, env), self.ev(n.orelse, env))
         if isinstance(n, ast.Call):
+            key = ast.unparse(n)
+            if key in env:
+                return env[key]       # a comparison refined this very expression (self.A.trace() >= 3.0 ...) or a local is an alias of it
             name = ast.unparse(n.func).split(".")[-1]
             args = n.args
             if name == "clip" and len(args) == 3:
@@ -260,6 +265,7 @@ class Intervals:
             if c is None:
                 return env
             key = l.id if isinstance(l, ast.Name) else ast.unparse(l)
+            alias = env.get("alias:" + key) if isinstance(l, ast.Name) else None
             cur = self.ev(l, env)
             if not truth:
                 op = {ast.Lt: ast.GtE, ast.Gt: ast.LtE, ast.LtE: ast.Gt, ast.GtE: ast.Lt, ast.Eq: ast.NotEq, ast.NotEq: ast.Eq}.get(type(op), type(op))()
@@ -269,6 +275,8 @@ class Intervals:
                 env[key] = (cur[0], min(cur[1], c))
             elif isinstance(op, ast.Eq):
                 env[key] = (c, c)
+            if alias is not None and key in env:
+                env[alias] = env[key]
         return env
 
     # ---- statements
@@ -356,6 +364,9 @@ class Intervals:
                 if k.startswith(t.id + "[") or k.startswith(t.id + "."):
                     del env[k]
             env[t.id] = v
+            env.pop("alias:" + t.id, None)
+            if isinstance(value_node, ast.Call) and not value_node.args and not value_node.keywords:
+                env["alias:" + t.id] = ast.unparse(value_node)      # x = obj.method(): x and the call text denote one value until either changes
             # element-wise bounds of a literal vector  x = np.array([e0, e1, ...])
             lit = value_node
             if isinstance(lit, ast.Call) and ast.unparse(lit.func).split(".")[-1] in ("array", "asarray") and lit.args:
